@@ -46,6 +46,12 @@ THEOREMS = [
     "FaxVerif.C08.md_many",
     "FaxVerif.C08.proc_perm_partial",
     "FaxVerif.C08.proc_perm_counterexample",
+    # (a) wire format
+    "FaxVerif.C08.wire_partial",
+    # the Spec's conclusion is an equivalence
+    "FaxVerif.C08.sameOutcome_refl",
+    "FaxVerif.C08.sameOutcome_symm",
+    "FaxVerif.C08.sameOutcome_trans",
 ]
 RULE = (
     "type-directed random queries over a synthetic data model declared by the query's own MetaData calls (collections CollA/CollB, "
@@ -782,7 +788,7 @@ def run(ctx):
     stack_stream(ctx, 300 if quick else 3000)
     procmd_stream(ctx, 40 if quick else 400)
     TIMER.lap("stack+procmd streams")
-    nq = 48 if quick else 240
+    nq = 48 if quick else 160
     batch = 48 if quick else 40
     done = 0
     while done < nq:
